@@ -219,6 +219,13 @@ class MpWriter(SegmentWriter):
         try:
             for task in self.tasks:
                 task.cancel()
+                # Setting a flag on this side's Process object does not reach
+                # the sub-process, which is blocked waiting for its next job:
+                # stop it, or it (and the interpreter's exit, which joins it)
+                # would wait forever
+                if task.is_alive():
+                    task.terminate()
+                    task.join()
         finally:
             SegmentWriter.cancel(self)
 
